@@ -61,8 +61,8 @@ PROPS = {
     "C02": {"suites": [("hist", 1.0)], "theorems": L1_MUT + L1_ALGEBRA[:3] + F_THRESH, "modules": DEFAULT_MODULES + [FACTS],
             "owns": {"new", "add", "cadd", "addint", "addmany", "rem", "crem", "addr", "remr", "flip", "clear", "opt", "clone",
                      "cowclone", "detach", "setcow", "dig", "card", "empty", "of"}},
-    "C03": {"suites": [("query", 1.0), ("kernq", 0.3)], "theorems": L1_QUERY,
-            "owns": {"card", "empty", "has", "min", "max", "rank", "sel", "cir", "iwi", "eq", "toarr", "toexarr", "chkeq", "dig", "kern"}},
+    "C03": {"suites": [("query", 1.0), ("kernq", 0.3), ("eqpairs", 0.5)], "theorems": L1_QUERY,
+            "owns": {"card", "empty", "has", "min", "max", "rank", "sel", "cir", "iwi", "eq", "toarr", "toexarr", "chkeq", "dig", "kern", "mkrepr"}},
     "C04": {"suites": [("iter", 1.0), ("iterun", 1.0)],
             "theorems": L1_NBR[:4] + ["RModel.BSet.rankLt_eq_count", "RModel.BSet.card_eq_rankLt", "RModel.BSet.select_spec",
                                       "RModel.BSet.select_none", "RModel.BSet.mem_toList", "RModel.BSet.toList_sorted",
@@ -95,6 +95,8 @@ PROPS = {
     "C09": {"suites": [("hist", 1.0), ("alg", 0.7), ("xform", 0.7), ("ser", 0.5), ("kernwf", 1.0), ("kernthresh", 1.0), ("thresh", 0.5), ("agg", 0.5), ("kernl2", 0.5)],
             "theorems": ["RModel.Impl.wf_implies_validate", "RModel.Impl.validate_implies_wf_of_decoded", "RModel.BSet.canon_ext"] + F_THRESH + L2_CONT[4:8],
             "modules": DEFAULT_MODULES + [FACTS, "RProofs.Properties.C09", "RProofs.ContOps"],
+            # a library-written stream read back must validate: `rd` lines whose Go side reports an invalid bitmap are C09's
+            "owns_fn": lambda op, mm, suite: op in ("wf", "kernwf") or (op == "rd" and "invalid:" in mm.get("got", "")),
             "owns": {"wf", "kernwf"}},
     "C10": {"suites": [("fuzzdec", 1.0), ("fuzzfrozen", 0.5)], "corpus": ["corpus/C10/frozen-bitmap4096.txt"],
             "theorems": ["RModel.Impl.decode_no_panic", "RModel.Impl.prefix_rejected", "RModel.Impl.decode_shape",
